@@ -532,6 +532,10 @@ func init() {
 		}
 		return !pinnedFunctions[name] && !core.MatchName(name, knownFunctions...) && len(callee.Blocks) <= 60
 	}
+	// the flow-insensitive helpers expand the same functions when they have a single call site
+	core.Transparent = func(callee *ssa.Function) bool {
+		return core.InlinePolicy(nil, callee)
+	}
 }
 
 
@@ -562,4 +566,88 @@ func calledOnlyFromDepth(w *core.World, g *ssa.Function, owner string, depth int
 		}
 	}
 	return found
+}
+
+// ---------------------------------------------------------------- ordering decisions
+
+// orderingTable decides a "keep the best of a sequence" loop by cases. The
+// loop compares a candidate with the best so far in two dimensions A and B
+// (for instance offset and modification time); classify names a value as
+// "cA", "bA", "cB", "bB" (candidate/best × dimension) or "". For each of the
+// nine sign combinations of (cA ? bA, cB ? bB) the result tells whether some
+// path of one iteration that replaces the best (isReplace matches an
+// instruction on it) is consistent with the combination. Values are touched
+// through comparisons only, so the nine cases are exhaustive.
+func orderingTable(head *ssa.BasicBlock, isReplace func(ssa.Instruction) bool, classify func(p *core.Path, v ssa.Value) string) (replaced [3][3]bool, paths int, ok bool) {
+	sign := func(op token.Token, s int) bool { // does "cand op best" hold when cand ? best has sign s (0:<, 1:=, 2:>)
+		switch op {
+		case token.LSS:
+			return s == 0
+		case token.LEQ:
+			return s <= 1
+		case token.EQL:
+			return s == 1
+		case token.NEQ:
+			return s != 1
+		case token.GEQ:
+			return s >= 1
+		case token.GTR:
+			return s == 2
+		}
+		return true
+	}
+	flip := map[token.Token]token.Token{token.LSS: token.GTR, token.LEQ: token.GEQ, token.GTR: token.LSS, token.GEQ: token.LEQ, token.EQL: token.EQL, token.NEQ: token.NEQ}
+	ok = core.EnumPathsN(head, 0, 200000, 1, func(p *core.Path) {
+		if !p.Closed {
+			return
+		}
+		rep := false
+		for _, in := range p.Instrs {
+			if isReplace(in) {
+				rep = true
+			}
+		}
+		if !rep {
+			return
+		}
+		paths++
+		type cons struct {
+			dim string
+			op  token.Token
+		}
+		var cs []cons
+		for _, fct := range p.Conds {
+			c, isCmp := core.AsCmp(p.Resolve(fct.Cond), fct.Val)
+			if !isCmp {
+				continue
+			}
+			kx, ky := classify(p, c.X), classify(p, c.Y)
+			if kx == "" || ky == "" || kx[1:] != ky[1:] || kx[0] == ky[0] {
+				continue
+			}
+			op := c.Op
+			if kx[0] == 'b' {
+				op = flip[op]
+			}
+			cs = append(cs, cons{kx[1:], op})
+		}
+		for a := 0; a < 3; a++ {
+			for b := 0; b < 3; b++ {
+				sat := true
+				for _, c := range cs {
+					s := a
+					if c.dim == "B" {
+						s = b
+					}
+					if !sign(c.op, s) {
+						sat = false
+					}
+				}
+				if sat {
+					replaced[a][b] = true
+				}
+			}
+		}
+	})
+	return
 }
